@@ -8,15 +8,17 @@ class C02(Prop):
     id = "C02"
     title = "Session lifecycle for N UEs: establish, service request, release, deregister"
     lean_module = "Stgutg.Props.C02"
-    extra_modules = ["Stgutg.Props.Glue.names", "Stgutg.Props.Glue.stgutg_EstablishPDU", "Stgutg.Props.Glue.stgutg_ServiceRequest", "Stgutg.Props.Glue.stgutg_ReleasePDU", "Stgutg.Props.Glue.stgutg_DeregisterUE", "Stgutg.Props.Glue.stgutg_FindPDUSessionResourceSetupListSUReq", "Stgutg.Props.Glue.stgutg_DecodePDUSessionNASPDU", "Stgutg.Props.Glue.stgutg_DecodePDUSessionResourceSetupRequestTransfer", "Stgutg.Props.Glue.tglib_GetPDUSessionResourceSetupResponse", "Stgutg.Props.Glue.tglib_GetPDUSessionResourceReleaseResponse", "Stgutg.Props.Glue.tglib_GetInitialContextSetupResponseForServiceRequest", "Stgutg.Props.Glue.tglib_GetUEContextReleaseComplete", "Stgutg.Props.Glue.tglib_GetUplinkNASTransport", "Stgutg.Props.Glue.tglib_GetInitialUEMessage", "Stgutg.Proofs.BuildersLife", "Stgutg.Props.C02Steps", "Stgutg.Props.C02Life", "Stgutg.Props.C02History",
+    extra_modules = ["Stgutg.Props.Glue.names", "Stgutg.Props.Glue.stgutg_EstablishPDU", "Stgutg.Props.Glue.stgutg_ServiceRequest", "Stgutg.Props.Glue.stgutg_ReleasePDU", "Stgutg.Props.Glue.stgutg_DeregisterUE", "Stgutg.Props.Glue.stgutg_FindPDUSessionResourceSetupListSUReq", "Stgutg.Props.Glue.tglib_GetPDUSessionResourceSetupResponse", "Stgutg.Props.Glue.tglib_GetPDUSessionResourceReleaseResponse", "Stgutg.Props.Glue.tglib_GetInitialContextSetupResponseForServiceRequest", "Stgutg.Props.Glue.tglib_GetUEContextReleaseComplete", "Stgutg.Props.Glue.tglib_GetUplinkNASTransport", "Stgutg.Props.Glue.tglib_GetInitialUEMessage", "Stgutg.Proofs.BuildersLife", "Stgutg.Props.C02Steps", "Stgutg.Props.C02Life", "Stgutg.Props.C02History",
                      "Stgutg.Props.C02Script", "Stgutg.Proofs.EmulatorLife", "Stgutg.Props.C02Accepted",
                      "Stgutg.Proofs.EmulatorDlLife", "Stgutg.Proofs.EmulatorLifeReenc", "Stgutg.Proofs.EmulatorLifeArgs",
                      "Stgutg.Props.C02AcceptedOne", "Stgutg.Proofs.EmulatorLifeN", "Stgutg.Proofs.EmulatorLifeLoops",
-                     "Stgutg.Props.C02AcceptedN", "Stgutg.Props.C02Statement", "Stgutg.Props.C02Traffic", "Stgutg.Proofs.GenTieMin", "Stgutg.Gen.PureSelftest", "Stgutg.Proofs.GenTieNas", "Stgutg.Gen.PureSelftestRich"]
-    gen = ["schema", "registry", "templates", "nasie", "naslayout", "nassetters", "extract", "script", "tables", "traffic", "pure-min", "pure-selftest", "procs", "pure-count", "pure-nasprot"]
-    theorems = ["Stgutg.Proofs.GenTie.Nas.NASEncode_eq", "Stgutg.Proofs.GenTie.Nas.EncodeNasPduWithSecurity_eq"] + ["Stgutg.Props.GluePinned." + t for t in [
+                     "Stgutg.Props.C02AcceptedN", "Stgutg.Props.C02Statement", "Stgutg.Props.C02Traffic", "Stgutg.Proofs.GenTieMin", "Stgutg.Gen.PureSelftest", "Stgutg.Proofs.GenTieNas", "Stgutg.Gen.PureSelftestRich", "Stgutg.Proofs.GenTieExtract", "Stgutg.Gen.PureSelftestExt"]
+    gen = ["schema", "registry", "templates", "nasie", "naslayout", "nassetters", "extract", "script", "tables", "traffic", "pure-min", "pure-selftest", "procs", "pure-count", "pure-nasprot", "pure-extract", "pure-selftest-ext"]
+    theorems = ["Stgutg.Proofs.GenTie.Nas.NASEncode_eq", "Stgutg.Proofs.GenTie.Nas.EncodeNasPduWithSecurity_eq",
+                # the two extractors of pdu.go are tied by translation (gen pure-extract), not pinned
+                "Stgutg.Proofs.GenTie.Extract.DecodePDUSessionNASPDU_eq", "Stgutg.Proofs.GenTie.Extract.DecodePDUSessionResourceSetupRequestTransfer_eq"] + ["Stgutg.Props.GluePinned." + t for t in [
         # the glue functions this property depends on are still the text the models were written from (gen procs)
-        "names", "stgutg_EstablishPDU", "stgutg_ServiceRequest", "stgutg_ReleasePDU", "stgutg_DeregisterUE", "stgutg_FindPDUSessionResourceSetupListSUReq", "stgutg_DecodePDUSessionNASPDU", "stgutg_DecodePDUSessionResourceSetupRequestTransfer", "tglib_GetPDUSessionResourceSetupResponse", "tglib_GetPDUSessionResourceReleaseResponse", "tglib_GetInitialContextSetupResponseForServiceRequest", "tglib_GetUEContextReleaseComplete", "tglib_GetUplinkNASTransport", "tglib_GetInitialUEMessage"]] + ["Stgutg.Proofs.GenTie.Min.Min_eq"] + ["Stgutg.Props.C02Traffic." + t for t in [
+        "names", "stgutg_EstablishPDU", "stgutg_ServiceRequest", "stgutg_ReleasePDU", "stgutg_DeregisterUE", "stgutg_FindPDUSessionResourceSetupListSUReq", "tglib_GetPDUSessionResourceSetupResponse", "tglib_GetPDUSessionResourceReleaseResponse", "tglib_GetInitialContextSetupResponseForServiceRequest", "tglib_GetUEContextReleaseComplete", "tglib_GetUplinkNASTransport", "tglib_GetInitialUEMessage"]] + ["Stgutg.Proofs.GenTie.Min.Min_eq"] + ["Stgutg.Props.C02Traffic." + t for t in [
         # the traffic-mode branch of main (not runnable here: XDP) makes the calls of test mode with counts (N, N, 0, N, N)
         "C02_traffic_structure", "C02_traffic_calls", "C02_traffic_no_trap", "test_mode_skeleton", "C02_traffic_is_test_mode",
         "C02_traffic_dataplane"]] + ["Stgutg.Props.C02." + t for t in [
@@ -80,7 +82,13 @@ class C02(Prop):
         "TIE BY TRANSLATION (gen pure-min -> lean/Stgutg/Gen/PureMin.lean, regenerated from the source text of stgutg.Min on every run): "
         "GenTie.Min.Min_eq proves generated definition = Model.FailStop.goMin (the clamp the C02 theorems use) for all integers; trusted "
         "instead of sampling: the grammar of harness/cmd/gen/pure*.go and its runtime Gen/PureRt.lean, themselves checked against the Go "
-        "compiler on every run (gen pure-selftest -> Gen/PureSelftest.lean: results of executing the compiled self-test functions, 97 calls)"]
+        "compiler on every run (gen pure-selftest -> Gen/PureSelftest.lean: results of executing the compiled self-test functions, 97 calls)",
+        "TIE BY TRANSLATION of the two extractors EstablishPDU calls (gen pure-extract -> lean/Stgutg/Gen/PureExtract.lean, regenerated from the "
+        "source text of src/stgutg/pdu.go on every run): GenTie.Extract.DecodePDUSessionNASPDU_eq and DecodePDUSessionResourceSetupRequestTransfer_eq "
+        "prove generated = Model.Extract.decodeNas / decodeTransfer for every fuel and every slice incl. hidden capacity (the transfer: fewer than "
+        "2^62 octets); they replace the text pins of these two functions. Trusted instead of sampling: the slice-walker grammar of "
+        "harness/cmd/gen/pure_extract.go and its runtime Gen/PureRtSl.lean (details under C12), checked against the Go compiler on every run "
+        "(gen pure-selftest-ext -> Gen/PureSelftestExt.lean: 479 executed calls, 260 panics, 17 out of fuel)"]
     assumptions = ["the peer answers every read with a decodable NGAP message of the expected type (fail-stop behaviour is C19); "
                    "the setup request's item carries a DL NAS TRANSPORT[PDU SESSION ESTABLISHMENT ACCEPT] with an IPv4 address and "
                    "a transfer with a GTP tunnel (C12's domain)",
